@@ -15,6 +15,7 @@ import logging
 import re
 import os
 import struct
+import threading
 import yaml
 from collections import namedtuple
 
@@ -395,6 +396,10 @@ class SessionHandler:
     id = 0
     optional = "bromelia"
 
+    #: Session-Ids are generated from any thread: counting and reading the
+    #: counter is one step.
+    lock = threading.Lock()
+
 
     def __init__(self):
         SessionHandler.reset()
@@ -406,11 +411,12 @@ class SessionHandler:
         #: recommended format: 
         #: <DiameterIdentity>;<high 32 bits>;<low 32 bits>[;<optional value>]
 
-        SessionHandler._verify_session_id(previous, current=data)
+        with SessionHandler.lock:
+            SessionHandler._verify_session_id(previous, current=data)
 
-        high = SessionHandler.init
-        low = SessionHandler.id
-        optional = SessionHandler.optional
+            high = SessionHandler.init
+            low = SessionHandler.id
+            optional = SessionHandler.optional
 
         return f"{data};{high};{low};{optional}"
 
